@@ -81,7 +81,7 @@ def _gen_group(t, arrays, depth=0):
     if t.bool(0.3):
         g['start'] = t.choice([1, 2, 'c_start'])
     if t.bool(0.3):
-        g['stop'] = t.choice([3, 5, 'c_stop'])
+        g['stop'] = t.choice([3, 5, 'c_stop', 0])
     if depth == 0 and t.bool(0.35):
         g['iterate'] = 1
         g['max'] = t.choice([2, 3, 4, 6])
@@ -125,7 +125,8 @@ HANDCRAFTED = [
     dict(arrays=['f', 'g'], env=dict(n=4, nghost=4), groups=[
         _g(stop=6, eqs=[['TInit', 'f', None, 1.0], ['TLoop', 'f', ['f', 'g'], 2.0], ['TPost', 'f', None, 3.0]]),
         _g(label='L1', start=2, stop=7, real=1, eqs=[['TFull', 'g', ['f'], 2.0]]),
-        _g(label='L2', eqs=[['TReduce', 'f', None, 1.0], ['TPyInit', 'g', None, 2.0]])]),
+        _g(label='L2', eqs=[['TReduce', 'f', None, 1.0], ['TPyInit', 'g', None, 2.0]]),
+        _g(label='L3', stop=0, eqs=[['TInit', 'f', None, 5.0], ['TLoop', 'g', ['f'], 1.0]])]),
     # named start/stop, real=False, several destinations and a conditional sub-group under an iterated conditional parent
     dict(arrays=['f', 'g'], groups=[
         _g(real=0, start='c_start', stop='c_stop', eqs=[['TInitPair', 'f', ['g', 'f'], 1.0], ['TLoopAll', 'g', ['f'], 2.0], ['TPost', 'g', None, 1.0]]),
@@ -207,7 +208,7 @@ def _scenario(t, pid, sim_override=None):
             pts.append([round(0.1 * t.int(0, 12) + 0.013 * a + 0.0007 * i, 6), round(0.1 * t.int(0, 3), 6) if dim == 2 else 0.0,
                         float(t.int(1, 900000))])
         arrays[name] = dict(pts=pts, nreal=n, h=t.choice([0.06, 0.09, 0.13]), c_start=t.choice([0, 1, 2]),
-                            c_stop=t.choice([2, 3, 4, 8, 30]))
+                            c_stop=t.choice([2, 3, 4, 8, 30, 0]))
     nconv = sum(1 for g in _all_groups(prog) for e in g['eqs'] if e[0] == 'TConv')
     return dict(program=pid, prog=prog, dim=dim, arrays=arrays, cond=[int(t.bool(0.7)) for _ in range(24)],
                 thresh=(list(hint['thresh']) if ('thresh' in hint and t.bool(0.6)) else
